@@ -753,7 +753,7 @@ func runRoutes(r *core.R) string {
 	s.blks = blockCIDRs[:r.Src.Range(2, len(blockCIDRs), "n_blocks")]
 	maxOps := 60
 	if r.Tier == "thorough" {
-		maxOps = 140
+		maxOps = 110
 	}
 	nOps := r.Src.Range(6, maxOps, "n_ops")
 	r.Cfg("nodes", len(s.nodes))
